@@ -30,7 +30,9 @@ func entryPoints() []Call {
 		{Name: "orbad", V: 0}, {Name: "orbad", V: 1}, {Name: "orbad", V: 2}, {Name: "andbad", V: 0}, {Name: "andbad", V: 1},
 		{Name: "searchbad"}, {Name: "insbad"}, {Name: "getabsent"},
 		// live settings changes (stop / restart of the background writer)
-		{Name: "settings", V: 0}, {Name: "settings", V: 2}, {Name: "settings", V: 5},
+		{Name: "settings", V: 0}, {Name: "settings", V: 2}, {Name: "settings", V: 5}, {Name: "settings", V: 6},
+		// the whole database goes away under the other calls
+		{Name: "drop"},
 	}
 }
 
